@@ -660,6 +660,29 @@ def gen_precedence(mode):
     return out
 
 
+def gen_paths():
+    """value hints reach the path completers of engine/custom.rs (not modelled: their candidates are file names); the
+    property's first sentence still covers them: a candidate list or a plain error, never a panic -- for every word,
+    in particular `.`, `..`, `x/..`, a trailing slash, the empty word (seeded change seed2/C18-2)"""
+    def arg(id_, *items):
+        return "(arg %s%s)" % (h(id_), "".join(" " + x for x in items))
+    out = []
+    words = [b"", b".", b"..", b"../", b"./", b"sub/..", b"sub/.", b"sub/", b"sub", b"su", b"a.t", b"/", b"//", b"sub/deep/..",
+             b".h", b"-dash", b"\xff", b"sub/\xff", b"~", b"nope/..", b"...", b"sub/b"]
+    for hint in ("AnyPath", "FilePath", "DirPath", "ExecutablePath", "Other"):
+        c = "(cmd %s %s %s %s %s)" % (
+            h(b"p"),
+            arg(b"input", "(long %s)" % h(b"input"), "(short %d)" % ord("i"), "(action set)", "(x-hint %s)" % hint),
+            arg(b"many", "(long %s)" % h(b"many"), "(action append)", "(num 1 inf)", "(delim 44)", "(x-hint %s)" % hint),
+            arg(b"flag", "(short %d)" % ord("f"), "(action settrue)"),
+            arg(b"file", "(x-hint %s)" % hint, "(num 0 inf)"))
+        for w in words:
+            for line in ([b"--input", w], [b"--input=" + w], [b"-i", w], [b"-i" + w], [b"-fi" + w], [w], [b"x", w], [b"--", w],
+                         [b"--many", b"a", w], [b"--many=a," + w]):
+                out.append(case_line("dynpath", c, [b"prog"] + line, len(line)))
+    return out
+
+
 def gen_pending(mode):
     """directed family: an option spelling, then any token (its value, or not), then the word under the
     cursor - every (pending option x token shape x word) combination on the fixed commands"""
@@ -730,6 +753,7 @@ def streams(tier, rng):
                describe={"state x word-shape": coverage(st_cases, "states")}),
         Stream("accept", acc_cases, oracle=accept_oracle, area="dynamic", project=project, nontrivial=nontrivial,
                describe={"state x word-shape": coverage(acc_cases, "accept")}),
+        Stream("paths", gen_paths(), oracle=total_oracle, area=None, nontrivial=lambda c, r: bool(r) and r.startswith("ok")),
     ]
 
 
